@@ -21,9 +21,14 @@ Definition w0 : state :=
   {| nodes := [mknode [] 1 NTD (Some true) [] false; mknode ["n"] 2 NTD (Some true) [[]] false];
      leaves := [(["a"], lfT 10 10); (["nt"], lfND 11 1); (["n"; "c"], lfT 12 12)];
      store := [(10, 1%Z); (12, 2%Z)] |}.
-(* the same tree locked by memmap_(): every node flagged, nothing registered (D7) *)
+(* a tree locked by memmap_(): every node flagged, and (D7 repaired) the nested node registered under the root *)
 Definition w_mm : state :=
-  {| nodes := [mknode [] 1 NTD (Some true) [] true; mknode ["n"] 2 NTD (Some true) [] true];
+  {| nodes := [mknode [] 1 NTD (Some true) [] true; mknode ["n"] 2 NTD (Some true) [[]] true];
+     leaves := [(["a"], lfT 10 10); (["n"; "c"], lfT 12 12)];
+     store := [(10, 1%Z); (12, 2%Z)] |}.
+(* td = TensorDict({"a": tensor, "n": {"c": tensor}}, [3], names=["t"]): nothing locked, nothing registered *)
+Definition w_plain : state :=
+  {| nodes := [mknode [] 1 NTD (Some false) [] false; mknode ["n"] 2 NTD (Some false) [] false];
      leaves := [(["a"], lfT 10 10); (["n"; "c"], lfT 12 12)];
      store := [(10, 1%Z); (12, 2%Z)] |}.
 (* ls = lazy_stack([TensorDict({"x": t0}, names..), TensorDict({"x": t1}, ...)]).lock_() *)
@@ -116,12 +121,53 @@ Example derived_lock_not_memoised :
 Proof. eexists; split; vm_compute; reflexivity. Qed.
 
 (* ---------------------------------------------------------------- what is still refuted *)
-(* D62 (consequence of D7, owned by C05): a nested node of a memmap_-locked tree unlocks alone *)
+(* ---------------------------------------------------------------- D62 (consequence of D7, owned by C05) — repaired *)
+(* the lock state of a world: per node its flag, its registered parents, _is_memmap *)
+Definition lock_graph (s : state) : list (path * option bool * list path * bool) :=
+  map (fun n => (n_path n, n_flag n, n_parents n, n_memmap n)) (nodes s).
+
+Lemma w_plain_good : forall U, Good U w_plain.
+Proof.
+  intros U. constructor.
+  - cbn. repeat constructor; cbn; intuition discriminate.
+  - intros n [<-|[<-|[]]]; cbn; split; try reflexivity; discriminate.
+  - intros n x [<-|[<-|[]]] [<-|[<-|[]]]; cbn; auto.
+  - intros n x [<-|[<-|[]]] [<-|[<-|[]]]; cbn; intros; try discriminate; auto.
+  - intros n [<-|[<-|[]]]; cbn; intros; try discriminate; reflexivity.
+  - intros n e [<-|[<-|[]]] [].
+Qed.
+
+(* td.memmap_() on the unlocked tree, then: read, n.unlock_(), n.set("new", ...), n.lock_() *)
 Definition subtree_unlock_ops : list op := [ORead [] MFlattenKeys [] []; OUnlock ["n"]; OSet ["n"; "new"] (lfT 40 40); OLock ["n"]].
-Theorem refuted_memmap_subtree_unlock :
-  outcomes repo false w_mm subtree_unlock_ops = [Done; Done; Done; Done] /\ stale_hit (run repo false w_mm subtree_unlock_ops) [] MFlattenKeys [] [].
-Proof. split; [reflexivity|stale]. Qed.
-(* with the lock graph built by lock_ the same unlock is refused: the witness needs memmap_'s graph-less lock *)
+Definition memmap_then_subtree_unlock : list op := OMemmap [] 100 :: subtree_unlock_ops.
+
+(* repaired: memmap_() builds the lock graph (every node flagged, the nested node registered under the root); the nested node
+   cannot be unlocked alone — the call is REFUSED and the lock state is what it was (the flags, the parents; _is_memmap of the
+   node that tried is cleared by _propagate_unlock, a quirk of the library that the model has) — the structural write is
+   refused too, and the root's memoised flatten_keys is a sound hit *)
+Theorem memmap_subtree_unlock_refused :
+  let s1 := fst (step repo false w_plain (OMemmap [] 100)) in
+  lock_graph s1 = [([], Some true, [], true); (["n"], Some true, [[]], true)]
+  /\ snd (step repo false s1 (OUnlock ["n"])) = RaisedLock
+  /\ lock_graph (fst (step repo false s1 (OUnlock ["n"]))) = [([], Some true, [], true); (["n"], Some true, [[]], false)]
+  /\ outcomes repo false w_plain memmap_then_subtree_unlock = [Done; Done; RaisedLock; RaisedLock; Done]
+  /\ exists v n, snd (read false (run repo false w_plain memmap_then_subtree_unlock) [] MFlattenKeys [] []) = Some (Hit, v, None)
+                 /\ find_node (run repo false w_plain memmap_then_subtree_unlock) [] = Some n
+                 /\ v = fresh (run repo false w_plain memmap_then_subtree_unlock) n MFlattenKeys [] [].
+Proof.
+  cbv zeta. split; [reflexivity|split; [reflexivity|split; [reflexivity|split; [reflexivity|]]]].
+  eexists; eexists; split; [vm_compute; reflexivity|split; vm_compute; reflexivity].
+Qed.
+
+(* the library before the repair of D7: memmap_() flags the nodes and registers nothing, the nested node unlocks alone, is
+   written structurally, and the root answers from its memoised flatten_keys — a stale hit (what D62 recorded) *)
+Theorem unrepaired_memmap_subtree_unlock :
+  lock_graph (fst (step unrepaired false w_plain (OMemmap [] 100))) = [([], Some true, [], true); (["n"], Some true, [], true)]
+  /\ outcomes unrepaired false w_plain memmap_then_subtree_unlock = [Done; Done; Done; Done; Done]
+  /\ stale_hit (run unrepaired false w_plain memmap_then_subtree_unlock) [] MFlattenKeys [] [].
+Proof. split; [reflexivity|split; [reflexivity|stale]]. Qed.
+
+(* with the lock graph built by lock_ the same unlock is refused as well *)
 Example subtree_unlock_refused_under_lock_ : outcomes repo false w0 [OUnlock ["n"]] = [RaisedLock].
 Proof. reflexivity. Qed.
 
